@@ -35,7 +35,7 @@ def levels(tier):
         {"name": "recrawl3-wide", "shapes": [[1, 2, 2]], "L": 1, "n": 1, "prelude": [["page", 0, True]], "alphabet": ["batch", "links"],
          "batch_sources": 3, "batch_targets": 2, "links_batch": 2, "yield_frequencies": [50, 1]},
         {"name": "n2-2shapes", "shapes": [[1, 2, 2], [2, 2, 3]], "L": 1, "n": 2, "alphabet": full},
-        {"name": "n3-4ops", "shapes": [[1, 2, 2]], "L": 1, "n": 3, "alphabet": ["page", "links", "batch", "we"], "links_batch": 1, "batch_targets": 1},
+        {"name": "n3-edits", "shapes": [[1, 2, 2]], "L": 1, "n": 3, "alphabet": ["page", "links", "we", "rule"], "links_batch": 1},
     ]
 
 
